@@ -728,7 +728,9 @@ def history_part(ctx: vlib.Ctx, n_hist=None, tag=""):
                 sig = classify_history_failure(hr, mm)
                 upto = [list(o) for o in ops[:mm["index"] + 1]]
                 what_twin = ("the same family without keyword-flag options" if sig["kind"] == "keyword-flag-changes-default-output"
-                             else f"the twin family whose default dialect is D{mm['op'][2]}")
+                             else f"the twin family whose default dialect is D{mm['op'][2]}"
+                             + ("" if not isinstance(twin_key(spec, mm['op'][2]), tuple) else
+                                f" layered over the classes' own D{spec['base_dialect']} (Config.dialect.merge(D))"))
                 ctx.fail(f"{mm['op'][0]}.{ {'to': 'to_dict', 'from': 'from_dict', 'mto': 'to_<format>', 'mfrom': 'from_<format>'}[mm['op'][1]] }(dialect=D{mm['op'][2]}) after "
                          f"{mm['index']} earlier operations differs from {what_twin}",
                          {"entry": "history", "spec": spec, "source": F.family_source(spec), "ops": upto,
